@@ -13,9 +13,10 @@ META = {'claimed': True,
                "reported descriptor or expired timer itself may stay un-run when another callback returned non-zero first); events_run / events_spin return the latest callback's result, and after a "
                'callback returns non-zero, or returns while an interrupt request is pending, no further callback starts in that call (C05_status_returned, C05_stops_dispatch; an interrupt delivered '
                "by a signal during the zero-timeout re-poll still allows the one timer callback that follows, in the C and in the model alike); every live id is still registered in the model's final "
-               "state (C05_pending_stay_registered; a statement about the model's state, not trace-observable). 13 theorems, unbounded. Hypothesis beyond C04's: clock readings non-decreasing "
-               '(monotonic clock). For events_spin the progress/timeout clauses are stated for events_run only. Bound to the C by the same correspondence run as C04 (implementation trace = model '
-               "trace; the extracted check_c04 and check_c05 evaluated on the IMPLEMENTATION's trace, poll timeout argument observed by interposition).",
+               "state (C05_pending_stay_registered; a statement about the model's state, not trace-observable). every run inside the contract returns a trace or runs out of fuel "
+               "(C05_model_run_or_out_of_fuel, C05_model_ends_or_out_of_fuel). 15 theorems, unbounded. Hypothesis beyond C04's: clock readings non-decreasing (monotonic clock). For events_spin the "
+               'progress/timeout clauses are stated for events_run only. Bound to the C by the same correspondence run as C04 (implementation trace = model trace; the extracted check_c04 and '
+               "check_c05 evaluated on the IMPLEMENTATION's trace, poll timeout argument observed by interposition).",
  'level_note': 'Trusted: Coq kernel; hand-written Gallina model of events*.c bound by differential execution (ASan/UBSan, interposed poll/clock_gettime); in the model an EINTR poll stores revents = '
                '0 and an exhausted poll script is EINTR with interrupt; normalised timevals, fd < 2^31, non-decreasing clock. Repaired defect F10 (clamp) has its regression in the select-timeout '
                'theorem. Print Assumptions: closed under the global context.',
